@@ -127,7 +127,7 @@ def rule_lazy_adapt(ctx, R):
         ctx.check(not bad, "LAZY-ADAPT", b, "no-unchecked:" + v.tag, b.span, "no unchecked/panicking access in the adapter")
         ret = pnorm(S.root.ret())
         somes = [x for x in members(ret) if x[0] == "agg" and x[2] == "Some"]
-        okr = len(somes) == 1 and gets and m(P(C("core::slice::get", ANY, ANY, site=(b.path, gets[0]["bb"]))), dict(somes[0][3])["0"])
+        okr = len(somes) == 1 and gets and m(E(F(Par(1), "inner"), F(Par(1), "pos")), dict(somes[0][3])["0"])
         ctx.check(okr, "LAZY-ADAPT", b, "returns-byte-read:" + v.tag, b.span, "Some(x) must carry the byte just read; returns %s" % show(ret))
         ws = [s for s in S.stores if m(F(Par(1), "pos"), s["tgt"])]
         okw = len(ws) == 1 and m(B("Add", F(Par(1), "pos"), K(1)), ws[0]["val"])
